@@ -5,8 +5,12 @@ import (
 	"go/constant"
 	"go/token"
 	"go/types"
+	"os"
+	"os/exec"
+	"regexp"
 	"sort"
 	"strings"
+	"sync"
 
 	"golang.org/x/tools/go/ssa"
 )
@@ -14,91 +18,97 @@ import (
 type Fact struct {
 	blk, seq int // blk == -1: global
 	text     string
+	spec     string // frame fact of this spec function: only needed where the function occurs
+	label    string // assumed instance of the labelled contract clause
 }
 
 type Obligation struct {
-	Name      string
-	Class     string // safe pre post inv-init inv-pres dec frame lemma cover det
-	Props     []string
-	Func      string
-	vc        *VC
-	blk, seq  int
-	reach     string
-	goal      string
-	ExpectSat bool
-	raw       string // for lemma obligations: complete query body
-	Clause    *Clause
-	Pos       string
+	Name       string
+	Class      string // safe pre post inv-init inv-pres dec frame lemma cover det
+	Props      []string
+	Func       string
+	vc         *VC
+	blk, seq   int
+	reach      string
+	goal       string
+	ExpectSat  bool
+	raw        string // for lemma obligations: complete query body
+	Clause     *Clause
+	Pos        string
 	ShortLimit bool
 }
 
 // VC holds the verification conditions of one function.
 type VC struct {
-	prog      *Program
-	fn        *ssa.Function
-	fc        *FuncContract
-	decls     []string
-	declSet   map[string]bool
-	facts     []Fact
-	obs       []*Obligation
-	nconst    int
-	seq       int
-	curBlk    int
-	compSorts map[string]string
-	touched   map[string]bool
-	strLits   map[string]string
-	regs      map[ssa.Value]Val
-	params    map[string]Val
-	results   []Val
-	order     []*ssa.BasicBlock
-	topo      map[*ssa.BasicBlock]int
-	reachB    map[*ssa.BasicBlock]string
-	edge      map[[2]int]string
-	out       map[*ssa.BasicBlock]*State
-	anc       [][]bool
-	loops     map[*ssa.BasicBlock]*loopInfo
-	loopList  []*loopInfo
-	entry     *State
-	counters  map[string]int
-	curReach  string
-	usedExt   map[string]bool
-	usedSpecs map[string]bool
-	retCount  int
-	errBuf    []string
-	iterN     int
-	specTab      *specTable
-	specRecorder func(string) string
-	curSpec      *specInfo
-	nilChecked   map[string][]*ssa.BasicBlock
-	curIns       ssa.Instruction
-	retNames     map[*ssa.Return]string
-	retSeen      map[string]int
-	lemmaPkg     *types.Package
-	preparing    bool
-	escaped      map[*ssa.Alloc]bool
-	allocBound   map[*ssa.Alloc]string
-	relSpecs     map[string]bool
-	warnings     []string
+	prog             *Program
+	fn               *ssa.Function
+	fc               *FuncContract
+	decls            []string
+	declSet          map[string]bool
+	facts            []Fact
+	obs              []*Obligation
+	nconst           int
+	seq              int
+	curBlk           int
+	compSorts        map[string]string
+	touched          map[string]bool
+	strLits          map[string]string
+	regs             map[ssa.Value]Val
+	params           map[string]Val
+	results          []Val
+	order            []*ssa.BasicBlock
+	topo             map[*ssa.BasicBlock]int
+	reachB           map[*ssa.BasicBlock]string
+	edge             map[[2]int]string
+	out              map[*ssa.BasicBlock]*State
+	anc              [][]bool
+	loops            map[*ssa.BasicBlock]*loopInfo
+	loopList         []*loopInfo
+	entry            *State
+	counters         map[string]int
+	curReach         string
+	usedExt          map[string]bool
+	usedSpecs        map[string]bool
+	retCount         int
+	errBuf           []string
+	iterN            int
+	specTab          *specTable
+	specRecorder     func(string) string
+	curSpec          *specInfo
+	nilChecked       map[string][]*ssa.BasicBlock
+	curIns           ssa.Instruction
+	retNames         map[*ssa.Return]string
+	retSeen          map[string]int
+	lemmaPkg         *types.Package
+	preparing        bool
+	deadCache        map[string]map[int]bool
+	deadMu           sync.Mutex
+	obligeState      *State
+	escaped          map[*ssa.Alloc]bool
+	allocBound       map[*ssa.Alloc]string
+	relSpecs         map[string]bool
+	warnings         []string
 	pendingGhostInit bool
-	ghostT       map[string]*GT
-	ghostScalar  map[string]types.Type
-	updatesAt    map[ssa.Instruction][]*UpdateClause
+	ghostT           map[string]*GT
+	ghostScalar      map[string]types.Type
+	updatesAt        map[ssa.Instruction][]*UpdateClause
+	assertsAt        map[ssa.Instruction][]*AssertClause
 	lastGhostResults map[string]Val
 }
 
 type loopInfo struct {
-	header   *ssa.BasicBlock
-	body     map[*ssa.BasicBlock]bool
-	back     []*ssa.BasicBlock
-	ordinal  int
-	modCells map[*ssa.Alloc]bool
-	modComps map[string]bool
-	allocs   bool
-	clauses  []*Clause
+	header       *ssa.BasicBlock
+	body         map[*ssa.BasicBlock]bool
+	back         []*ssa.BasicBlock
+	ordinal      int
+	modCells     map[*ssa.Alloc]bool
+	modComps     map[string]bool
+	allocs       bool
+	clauses      []*Clause
 	modPseudo    map[string]bool
 	modAllPseudo bool
-	headSt   *State // state at the loop head (after havoc)
-	decVals  []string
+	headSt       *State // state at the loop head (after havoc)
+	decVals      []string
 }
 
 func (vc *VC) fresh(prefix, sort string) string {
@@ -129,7 +139,13 @@ func (vc *VC) declareRaw(key, text string) {
 // current program point (it is only needed by obligations downstream).
 func (vc *VC) define(c, term string) {
 	vc.seq++
-	vc.facts = append(vc.facts, Fact{vc.curBlk, vc.seq, sx("=", c, term)})
+	vc.facts = append(vc.facts, Fact{blk: vc.curBlk, seq: vc.seq, text: sx("=", c, term)})
+}
+
+// localSpec adds a frame fact about one spec function.
+func (vc *VC) localSpec(spec, text string) {
+	vc.seq++
+	vc.facts = append(vc.facts, Fact{blk: vc.curBlk, seq: vc.seq, text: text, spec: spec})
 }
 
 // local adds an unguarded fact about symbols created at the current point.
@@ -138,23 +154,27 @@ func (vc *VC) local(text string) {
 		return
 	}
 	vc.seq++
-	vc.facts = append(vc.facts, Fact{vc.curBlk, vc.seq, text})
+	vc.facts = append(vc.facts, Fact{blk: vc.curBlk, seq: vc.seq, text: text})
 }
 
 func (vc *VC) global(text string) {
 	if text == "true" {
 		return
 	}
-	vc.facts = append(vc.facts, Fact{-1, 0, text})
+	vc.facts = append(vc.facts, Fact{blk: -1, seq: 0, text: text})
 }
 
 // assume adds a positioned assumption guarded by the current block's reach.
-func (vc *VC) assume(text string) {
+func (vc *VC) assume(text string) { vc.assumeL(text, "") }
+
+func (vc *VC) assumeL(text, label string) {
 	if text == "true" {
 		return
 	}
-	vc.seq++
-	vc.facts = append(vc.facts, Fact{vc.curBlk, vc.seq, implies(vc.curReach, text)})
+	for _, part := range splitAnd(text) {
+		vc.seq++
+		vc.facts = append(vc.facts, Fact{blk: vc.curBlk, seq: vc.seq, text: implies(vc.curReach, part), label: label})
+	}
 }
 
 // splitAnd splits a top-level (and ...) s-expression into its conjuncts.
@@ -278,16 +298,24 @@ func topLevelArgs(body string) []string {
 }
 
 func (vc *VC) oblige(class, name string, props []string, goal string, cl *Clause) *Obligation {
+	hyp := "true"
+	if cl != nil && len(cl.Uses) > 0 && vc.obligeState != nil {
+		var hs []string
+		for _, u := range cl.Uses {
+			hs = append(hs, vc.lemmaFact(strings.TrimSpace(u), vc.obligeState))
+		}
+		hyp = and(hs...)
+	}
 	if class == "post" || class == "inv-init" || class == "inv-pres" || class == "pre" {
 		if parts := splitAnd(goal); len(parts) > 1 {
 			var last *Obligation
 			for i, p := range parts {
-				last = vc.oblige1(class, fmt.Sprintf("%s&%d", name, i), props, p, cl)
+				last = vc.oblige1(class, fmt.Sprintf("%s&%d", name, i), props, implies(hyp, p), cl)
 			}
 			return last
 		}
 	}
-	return vc.oblige1(class, name, props, goal, cl)
+	return vc.oblige1(class, name, props, implies(hyp, goal), cl)
 }
 
 func (vc *VC) oblige1(class, name string, props []string, goal string, cl *Clause) *Obligation {
@@ -310,11 +338,58 @@ func (vc *VC) oblige1(class, name string, props []string, goal string, cl *Claus
 	return ob
 }
 
-func (ob *Obligation) Query() string {
+var specNameRe = regexp.MustCompile(`spec_([A-Za-z0-9_]+)`)
+
+var baseRe = regexp.MustCompile(`\|((?:[hmg]_)?(?:H:|E:|MD:|MV:|ML:|G:)[^|!@]*|[hmg]_[A-Za-z][A-Za-z0-9]*)(?:[!@][^|]*)?\|`)
+
+// symbolBases extracts the heap components, ghost variables and spec
+// functions a formula talks about (version suffixes stripped).
+func symbolBases(t string, into map[string]bool) {
+	for _, m := range baseRe.FindAllStringSubmatch(t, -1) {
+		b := m[1]
+		for _, p := range []string{"h_", "m_", "g_"} {
+			b = strings.TrimPrefix(b, p)
+		}
+		into[b] = true
+	}
+	for _, m := range specNameRe.FindAllStringSubmatch(t, -1) {
+		into["spec:"+m[1]] = true
+	}
+}
+
+func (ob *Obligation) Query() string { return ob.QueryLevel(0) }
+
+// QueryLevel renders the query; level 1 and 2 keep only the quantified
+// assumptions that share a heap component, ghost variable or spec function
+// with the goal (directly, or through one more step). Dropping assumptions is
+// always sound; level 0 keeps everything.
+func (ob *Obligation) QueryLevel(level int) string {
 	if ob.raw != "" {
 		return ob.raw
 	}
 	vc := ob.vc
+	var visible []Fact
+	mentioned := map[string]bool{}
+	note := func(t string) {
+		for _, m := range specNameRe.FindAllStringSubmatch(t, -1) {
+			mentioned[m[1]] = true
+		}
+	}
+	dead := ob.deadBlocks()
+	for _, f := range vc.facts {
+		if f.blk == -1 || (f.blk == ob.blk && f.seq < ob.seq) || (f.blk != ob.blk && f.blk >= 0 && vc.anc[f.blk][ob.blk]) {
+			if f.blk >= 0 && dead[f.blk] {
+				continue
+			}
+			visible = append(visible, f)
+			if f.spec == "" {
+				note(f.text)
+			}
+		}
+	}
+	note(ob.goal)
+	note(ob.reach)
+	needed := vc.specClosure(mentioned)
 	var b strings.Builder
 	b.WriteString(prelude)
 	b.WriteString(preludeExtra)
@@ -322,13 +397,93 @@ func (ob *Obligation) Query() string {
 		b.WriteString(d)
 		b.WriteByte('\n')
 	}
-	b.WriteString(vc.specDecls())
-	for _, f := range vc.facts {
-		if f.blk == -1 || (f.blk == ob.blk && f.seq < ob.seq) || (f.blk != ob.blk && f.blk >= 0 && vc.anc[f.blk][ob.blk]) {
-			b.WriteString("(assert ")
-			b.WriteString(f.text)
-			b.WriteString(")\n")
+	var rel map[string]bool
+	if level > 0 {
+		rel = map[string]bool{}
+		symbolBases(ob.goal, rel)
+		for step := 1; step < level; step++ {
+			add := map[string]bool{}
+			for _, f := range visible {
+				if !strings.Contains(f.text, "(forall ") {
+					continue
+				}
+				fb := map[string]bool{}
+				symbolBases(f.text, fb)
+				hit := false
+				for k := range fb {
+					if rel[k] {
+						hit = true
+					}
+				}
+				if hit {
+					for k := range fb {
+						add[k] = true
+					}
+				}
+			}
+			for k := range add {
+				rel[k] = true
+			}
 		}
+	}
+	if rel != nil {
+		// at a relevance level only the spec functions connected to the goal
+		// get their frame facts
+		goalSpecs := map[string]bool{}
+		for k := range rel {
+			if strings.HasPrefix(k, "spec:") {
+				goalSpecs[k[5:]] = true
+			}
+		}
+		frameSpecs := vc.specClosure(goalSpecs)
+		for n := range needed {
+			if !frameSpecs[n] {
+				// keep the definition (other facts may mention it) but drop its frames
+				defer func(n string) {}(n)
+			}
+		}
+		all := map[string]bool{}
+		for n := range needed {
+			all[n] = true
+		}
+		for n := range frameSpecs {
+			all[n] = true
+		}
+		b.WriteString(vc.specDeclsFor(vc.specClosure(all)))
+		needed = frameSpecs
+	} else {
+		b.WriteString(vc.specDeclsFor(needed))
+	}
+	var needs map[string]bool
+	if level != 0 && ob.Clause != nil && len(ob.Clause.Needs) > 0 {
+		needs = map[string]bool{}
+		for _, n := range ob.Clause.Needs {
+			needs[strings.TrimSpace(n)] = true
+		}
+	}
+	for _, f := range visible {
+		if f.spec != "" && !needed[f.spec] {
+			continue
+		}
+		if needs != nil && f.label != "" && !needs[f.label] {
+			continue
+		}
+		if rel != nil && strings.Contains(f.text, "(forall ") {
+			fb := map[string]bool{}
+			symbolBases(f.text, fb)
+			hit := false
+			for k := range fb {
+				if rel[k] {
+					hit = true
+				}
+			}
+			if !hit {
+				continue
+			}
+		}
+		b.WriteString("(assert ")
+		b.WriteString(f.text)
+		b.WriteString(")\n")
 	}
 	b.WriteString("(assert " + ob.reach + ")\n")
 	if ob.ExpectSat {
@@ -638,7 +793,7 @@ func (vc *VC) execBlock(b *ssa.BasicBlock, initial *State) {
 		env := vc.loopEnv(li)
 		for _, c := range li.clauses {
 			if c.Kind == "invariant" || c.Kind == "free" {
-				vc.assume(vc.evalBool(c.E, env, st, vc.entry))
+				vc.assumeL(vc.evalBool(c.E, env, st, vc.entry), c.Label)
 			}
 		}
 		li.headSt = st.clone()
@@ -968,8 +1123,20 @@ func (vc *VC) footprint(comp, av string) (string, bool) {
 	return or(parts...), false
 }
 
+// assumeOwnLemmas makes the lemmas listed in the function's "option uses="
+// available (instantiated over the heap of the given state).
+func (vc *VC) assumeOwnLemmas(st *State) {
+	if vc.fc == nil || vc.fc.Opts["lemmas"] == "" {
+		return
+	}
+	for _, ln := range strings.Split(vc.fc.Opts["lemmas"], ",") {
+		vc.assume(vc.lemmaFact(strings.TrimSpace(ln), st))
+	}
+}
+
 func (vc *VC) checkInvariant(li *loopInfo, st *State, class string, _ *Clause) {
 	env := vc.loopEnv(li)
+	vc.assumeOwnLemmas(st)
 	for i, c := range li.clauses {
 		if c.Kind != "invariant" {
 			continue
@@ -979,7 +1146,9 @@ func (vc *VC) checkInvariant(li *loopInfo, st *State, class string, _ *Clause) {
 			name = fmt.Sprintf("%d", i)
 		}
 		goal := vc.evalBool(c.E, env, st, vc.entry)
+		vc.obligeState = st
 		vc.oblige(class, fmt.Sprintf("%s@loop%d", name, li.ordinal), c.Props, goal, c)
+		vc.obligeState = nil
 	}
 }
 
@@ -1850,7 +2019,7 @@ func (vc *VC) execMakeSlice(x *ssa.MakeSlice, st *State) {
 func (vc *VC) zeroArray(st *State, et types.Type, arr string) {
 	var comps []struct {
 		name, zero string
-		path     []int
+		path       []int
 	}
 	var walk func(t types.Type, path []int)
 	walk = func(t types.Type, path []int) {
@@ -1867,7 +2036,7 @@ func (vc *VC) zeroArray(st *State, et types.Type, arr string) {
 			if isScalarType(ft) {
 				comps = append(comps, struct {
 					name, zero string
-					path     []int
+					path       []int
 				}{vc.regComp(fieldComp(t, i), sortOfType(ft)), vc.zero(ft).S, path})
 			} else {
 				walk(ft, p)
@@ -1877,7 +2046,7 @@ func (vc *VC) zeroArray(st *State, et types.Type, arr string) {
 	if isScalarType(et) {
 		comps = append(comps, struct {
 			name, zero string
-			path     []int
+			path       []int
 		}{vc.regComp(elemComp(et), sortOfType(et)), vc.zero(et).S, nil})
 	} else {
 		walk(et, nil)
@@ -1946,6 +2115,7 @@ func (vc *VC) execReturn(x *ssa.Return, st *State) {
 		return
 	}
 	env := vc.contractEnv(results)
+	vc.assumeOwnLemmas(st)
 	// locals visible for at-return clauses
 	lenv := vc.localEnv(x.Block(), env)
 	for i, c := range vc.fc.Ensures {
@@ -1965,7 +2135,9 @@ func (vc *VC) execReturn(x *ssa.Return, st *State) {
 		} else {
 			goal = vc.evalBool(c.E, e, st, vc.entry)
 		}
+		vc.obligeState = st
 		vc.oblige("post", fmt.Sprintf("%s@%s", name, vc.retSite(x)), c.Props, goal, c)
+		vc.obligeState = nil
 	}
 }
 
@@ -2003,4 +2175,82 @@ func (vc *VC) retSite(x *ssa.Return) string {
 	name := fmt.Sprintf("%s%d", key, vc.retSeen[key])
 	vc.retNames[x] = name
 	return name
+}
+
+// deadBlocks finds ancestor blocks that cannot lie on any execution reaching
+// the obligation (e.g. the "found" branch when the obligation sits on the
+// "not found" path): one incremental solver run over the quantifier-free
+// facts, asking for each ancestor whether it can be reached together with the
+// obligation's own reach condition. Their facts are vacuous for this
+// obligation and are dropped (dropping facts is always sound).
+func (ob *Obligation) deadBlocks() map[int]bool {
+	vc := ob.vc
+	if vc == nil || ob.raw != "" {
+		return nil
+	}
+	key := fmt.Sprintf("%d|%s", ob.blk, ob.reach)
+	vc.deadMu.Lock()
+	if d, ok := vc.deadCache[key]; ok {
+		vc.deadMu.Unlock()
+		return d
+	}
+	vc.deadMu.Unlock()
+	// candidate ancestors: those carrying quantified facts
+	cand := map[int]int{}
+	for _, f := range vc.facts {
+		if f.blk >= 0 && f.blk != ob.blk && vc.anc[f.blk][ob.blk] && strings.Contains(f.text, "(forall ") {
+			cand[f.blk]++
+		}
+	}
+	dead := map[int]bool{}
+	if len(cand) >= 2 {
+		var b strings.Builder
+		b.WriteString(preludeDecls)
+		b.WriteString(preludeExtra)
+		for _, d := range vc.decls {
+			b.WriteString(d + "\n")
+		}
+		for _, f := range vc.facts {
+			if strings.Contains(f.text, "(forall ") || strings.Contains(f.text, "(exists ") || strings.Contains(f.text, "spec_") {
+				continue
+			}
+			if f.blk == -1 || (f.blk == ob.blk && f.seq < ob.seq) || (f.blk != ob.blk && f.blk >= 0 && vc.anc[f.blk][ob.blk]) {
+				b.WriteString("(assert " + f.text + ")\n")
+			}
+		}
+		b.WriteString("(assert " + ob.reach + ")\n")
+		var blks []int
+		for k := range cand {
+			blks = append(blks, k)
+		}
+		sort.Ints(blks)
+		for _, k := range blks {
+			r := vc.reachB[vc.order[k]]
+			b.WriteString("(push)\n(assert " + r + ")\n(check-sat)\n(pop)\n")
+		}
+		f, err := os.CreateTemp("", "govc-dead-*.smt2")
+		if err == nil {
+			f.WriteString(b.String())
+			f.Close()
+			out, _ := exec.Command("z3-new", "-T:5", f.Name()).Output()
+			if os.Getenv("GOVC_KEEPDEAD") == "" {
+				os.Remove(f.Name())
+			}
+			lines := strings.Fields(string(out))
+			if len(lines) == len(blks) {
+				for i, k := range blks {
+					if lines[i] == "unsat" {
+						dead[k] = true
+					}
+				}
+			}
+		}
+	}
+	vc.deadMu.Lock()
+	if vc.deadCache == nil {
+		vc.deadCache = map[string]map[int]bool{}
+	}
+	vc.deadCache[key] = dead
+	vc.deadMu.Unlock()
+	return dead
 }
